@@ -57,7 +57,7 @@ type config struct {
 	basePath string          // ends in '/'
 	usesFor  map[string]bool // actions that get middleware from Uses() (may name unimplemented actions)
 	groupMw  int
-	spare    int // spare capacity of the middleware slice handed to Resource
+	spare    int    // spare capacity of the middleware slice handed to Resource
 	outer    string // non-empty: Resource is called inside Group(outer, ...)
 	outerMw  int    // middleware given to the outer group
 	outerUse int    // Use calls inside the outer group before Resource (the group chain is then built by append)
@@ -102,7 +102,7 @@ func register(c config) *rux.Router {
 	if c.uses {
 		b.uses = map[string][]rux.HandlerFunc{}
 		for a := range c.usesFor {
-			b.uses[a] = []rux.HandlerFunc{mw("uses:" + a)}
+			b.uses[a] = append(make([]rux.HandlerFunc, 0, 3), mw("uses:"+a)) // (with spare capacity)
 		}
 	}
 	var opts []func(*rux.Router)
@@ -117,6 +117,20 @@ func register(c config) *rux.Router {
 	for i := 0; i < c.groupMw; i++ {
 		gm = append(gm, mw(fmt.Sprintf("group%d", i)))
 	}
+	defer func() {
+		// registration is over: the controller rebuilds its Uses() table in place, the caller reuses its middleware slice
+		stray := func(c *rux.Context) { c.WriteString("<A-HANDLER-FROM-A-SLICE-ITS-OWNER-REUSED>") }
+		for _, hs := range b.uses {
+			hs = hs[:cap(hs)]
+			for i := range hs {
+				hs[i] = stray
+			}
+		}
+		gm = gm[:cap(gm)]
+		for i := range gm {
+			gm[i] = stray
+		}
+	}()
 	if c.outer == "" {
 		r.Resource(c.basePath, newController(c.bits, c.uses, b), gm...)
 		return r
@@ -279,7 +293,7 @@ func (mapCtl) Show(ctx *rux.Context) { ctx.WriteString("show") }
 func prop(t *rapid.T) {
 	ev.Case()
 	c := config{bits: rapid.IntRange(0, 127).Draw(t, "actions"), uses: rapid.Bool().Draw(t, "hasUses"),
-		basePath: rapid.SampledFrom([]string{"/", "/api/", "/api/v1/", "api/", "/Admin/V1/", "/API/"}).Draw(t, "base"), groupMw: rapid.IntRange(0, 3).Draw(t, "groupMw"),
+		basePath: rapid.SampledFrom([]string{"/", "/api/", "/api/v1/", "api/", "/Admin/V1/", "/API/", ""}).Draw(t, "base"), groupMw: rapid.IntRange(0, 3).Draw(t, "groupMw"),
 		spare: rapid.IntRange(0, 3).Draw(t, "spareCap"), usesFor: map[string]bool{}}
 	if c.uses {
 		for _, a := range rapid.SliceOfNDistinct(rapid.SampledFrom(append(append([]string{}, actions...), "Nope", "index")), 0, 4, rapid.ID[string]).Draw(t, "usesFor") {
@@ -358,3 +372,37 @@ func prop(t *rapid.T) {
 }
 
 func TestProp(t *testing.T) { rapid.Check(t, prop) }
+
+// wrongSig implements six actions; its Create has the wrong signature and is therefore no action.
+type wrongSig struct{ base }
+
+func (c *wrongSig) Index(ctx *rux.Context)  { c.act(ctx, "Index") }
+func (c *wrongSig) Create() string          { return "not an action: wrong signature" }
+func (c *wrongSig) Store(ctx *rux.Context)  { c.act(ctx, "Store") }
+func (c *wrongSig) Show(ctx *rux.Context)   { c.act(ctx, "Show") }
+func (c *wrongSig) Edit(ctx *rux.Context)   { c.act(ctx, "Edit") }
+func (c *wrongSig) Update(ctx *rux.Context) { c.act(ctx, "Update") }
+func (c *wrongSig) Delete(ctx *rux.Context) { c.act(ctx, "Delete") }
+
+// TestRegressWrongSignature: a method that merely has an action's name is skipped, and ONLY that one - whatever the
+// order in which Resource walks its action table (it is a map: repeated).
+func TestRegressWrongSignature(t *testing.T) {
+	for rep := 0; rep < 40; rep++ {
+		r := rux.New()
+		r.Resource("/", &wrongSig{})
+		names := []string{}
+		for n := range r.NamedRoutes() {
+			names = append(names, n)
+		}
+		sort.Strings(names)
+		ev.Eval()
+		if got, want := strings.Join(names, ","), "wrongsig_delete,wrongsig_edit,wrongsig_index,wrongsig_show,wrongsig_store,wrongsig_update"; got != want {
+			t.Fatalf("registration #%d: named routes %s, want %s", rep, got, want)
+		}
+		rec := httptest.NewRecorder()
+		r.ServeHTTP(rec, httptest.NewRequest("GET", "/wrongsig/create", nil))
+		if !strings.Contains(rec.Body.String(), "[Show id=create") {
+			t.Fatalf("registration #%d: GET /wrongsig/create answered %d %q, the table has show with id=create", rep, rec.Code, rec.Body.String())
+		}
+	}
+}
